@@ -77,6 +77,12 @@ CLAIMED = {
          'phases for any exact inverse), rvs_in_window, tail_share (the repaired share of the last partial period follows the profile) with tail_share_old_fails; oracles: round trip envelope, '
          'xEphemeris.rvs (sorted, in window, fold = phase, KS in free-running phase, tail share), periodic source data flow through the GTI filter, xpphase on two files.',
          'Lean kernel + Mathlib; translator; FITPACK spline inversion measured (partial): envelope 5e-12·periods + 2e-7 + 16 ulp(MET)·ν₀; fixed-seed statistics with 6σ / KS bands.'),
+ 'C07': ('proof', 'Lean 4 theorems about a model of the file summation (weighted average branches, cube/LC/quadrature sums), tied by correspondence through the real xBinned* classes',
+         'moment_additive (all four branches), wAvg2_comm/iadd_comm, fold_sums and sum_perm_invariant (any order or grouping of any number of files gives the same additive columns and, '
+         'for total I > 0, the same MU/E_MEAN hence the same derived columns), bin_append/iadd_empty_right (sum = binning merged events), lc_rate_additive/lc_zero_exposure, quad_comm/quad_assoc; '
+         'oracle: random partitions of a master event list binned by the real xpbin and summed in all orders vs the product of the merged events for PCUBE (weighted or not), PHA1, PP, CMAP '
+         '(and the written sum), MDPMAPCUBE, PMAPCUBE, LC; the compatibility guard.',
+         'Lean kernel + Mathlib; model + generators; float32 column arithmetic (3e-5); known findings: weighted PHA1 normalisation, LC EXPOSURE/COUNTS grouping dependence.'),
 }
 NOT_YET = 'check not built yet in this round (work in progress; see DESIGN.md section 7 for the planned model and theorems)'
 
